@@ -18,6 +18,8 @@ TRANSPARENT = {
     "<parking_lot::lock_api::MappedRwLockReadGuard<'a, R, T> as std::ops::Deref>::deref",
     "parking_lot::lock_api::RwLock::read",
     "parking_lot::lock_api::RwLock::write",
+    "<std::result::Result<T, E> as std::ops::Try>::branch",
+    "<std::option::Option<T> as std::ops::Try>::branch",
     "std::ops::Deref::deref",
     "std::ops::DerefMut::deref_mut",
     "<std::sync::Arc<T, A> as std::clone::Clone>::clone",
